@@ -26,7 +26,9 @@ for d in sorted(glob.glob(os.path.join(V, "seeded", "C*-w*-*")), key=key):
     r = res.get(name, {})
     now = r.get("status", "?")
     if now == "MISSED":
-        now = "missed (accepted)" if m.get("expect") == "missed" else "MISSED"
+        now = "MISSED"
+        if m.get("expect") == "missed":
+            now = "missed (open)" if m.get("why_open") else "missed (accepted)"
     orc = "-"
     mo = re.search(r"oracle=(\S+)", r.get("first_violation", ""))
     if mo:
